@@ -134,7 +134,7 @@ def must_consume_set(prog, rep):
     """least fixed point: f consumes at least one character on every path to an Ok return.
     Seeds: Parser::next; consume_token/keyword style fns are derived (they call consume_n(token.len())
     and E7.t shows every token constant is non-empty)."""
-    parser_fns = [f for f in prog.fns.values() if f.self_path == "tsg::parser::Parser" and f.body is not None]
+    parser_fns = [f for f in prog.shape_fns() if f.self_path == "tsg::parser::Parser" and f.body is not None]
     by_id = {f.id: f for f in parser_fns}
     mc = set()
     for f in parser_fns:
@@ -199,7 +199,7 @@ def _guarded_consume_while(prog, f, body, tr, b, target, by_id=None):
     of P(peek()): it consumes at least the peeked character"""
     from ..lib.cfgq import dominating_guards
     if by_id is None:
-        by_id = {g.id: g for g in prog.fns.values() if g.self_path == "tsg::parser::Parser" and g.body is not None}
+        by_id = {g.id: g for g in prog.shape_fns() if g.self_path == "tsg::parser::Parser" and g.body is not None}
     preds = _consume_while_preds(prog, target, by_id)
     if not preds:
         return False
@@ -231,7 +231,7 @@ def _run_e1c(prog, rep):
     mc, parser_by_id = must_consume_set(prog, rep)
     n_loops = 0
     stats = {"parser": 0, "finite-iterator": 0, "scan": 0, "cursor": 0, "other": 0}
-    for f in sorted(prog.fns.values(), key=lambda x: x.id):
+    for f in sorted(prog.shape_fns(), key=lambda x: x.id):
         if f.body is None:
             continue
         body = f.body
